@@ -1,5 +1,6 @@
 // Copyright (c) ZeroC, Inc.
 
+use crate::ast::node::Node;
 use crate::ast::Ast;
 use crate::diagnostics::{Diagnostic, Diagnostics, Error};
 use crate::grammar::*;
@@ -55,10 +56,29 @@ impl<'a> RedefinitionChecker<'a> {
         // Keys are the definition's fully-scoped identifiers, and values are references to the definitions themselves.
         let mut seen_definitions = HashMap::new();
 
+        // Modules share the AST's lookup table with definitions, so a definition cannot have the same scoped identifier
+        // as a module. We collect all the modules up front, so this check doesn't depend on the order of the files.
+        let mut seen_modules: HashMap<String, &'a Module> = HashMap::new();
+        for node in ast.as_slice() {
+            if let Node::Module(module_ptr) = node {
+                let module = module_ptr.borrow();
+                seen_modules.entry(module.nested_module_identifier().to_owned()).or_insert(module);
+            }
+        }
+
         for node in ast.as_slice() {
             // We only check `Entity`s so as to exclude any Slice elements which don't have names (and hence cannot be
             // redefined), and also to exclude modules (which are reopened, not redefined).
             let Ok(definition) = <&dyn Entity>::try_from(node) else { continue };
+
+            if let Some(module) = seen_modules.get(&definition.parser_scoped_identifier()) {
+                if !matches!(
+                    definition.concrete_entity(),
+                    Entities::Field(_) | Entities::Enumerator(_) | Entities::Operation(_) | Entities::Parameter(_)
+                ) {
+                    self.report_redefinition_error(definition, *module);
+                }
+            }
 
             match definition.concrete_entity() {
                 Entities::Struct(struct_def) => {
